@@ -240,7 +240,9 @@ class ExponentialOfHEMModel(ExponentialOfLevyModel):
     def __init__(self, spot: float, r: float, d: float, parameters: HEMParameters):
         hem_model = HEMModel(parameters=parameters)
         super().__init__(spot=spot, r=r, d=d, levy_model=hem_model)
-        self._process_drift = r - d - parameters.intensity * parameters._xi
+        self._process_drift = (
+            r - d - 0.5 * parameters.sigma**2 - parameters.intensity * parameters._xi
+        )
 
     def process_drift(self) -> np.array:
         return self._process_drift
